@@ -357,7 +357,11 @@ impl<T, S: Status, A: Clone + Allocator> RawTable<T, S, A> {
             let data = unsafe { slot.data.assume_init() };
 
             let mut index = status.hash_as_usize() & new_mask;
+            #[cfg(oxidd_verif)]
+            let mut verif_steps = 0usize;
             loop {
+                #[cfg(oxidd_verif)]
+                verif_probe_step(&mut verif_steps, new_cap, "reserve_rehash");
                 // SAFETY: masked index is in bounds (`new_data.len() != 0`)
                 let new_slot = unsafe { new_data.get_unchecked_mut(index) };
                 if new_slot.status == S::FREE {
@@ -457,7 +461,11 @@ impl<T, S: Status, A: Clone + Allocator> RawTable<T, S, A> {
         let mut index = hash as usize & mask;
         let hash_status = S::from_hash(hash);
 
+        #[cfg(oxidd_verif)]
+        let mut verif_steps = 0usize;
         loop {
+            #[cfg(oxidd_verif)]
+            verif_probe_step(&mut verif_steps, self.data.len(), "find");
             // SAFETY: masked index is in bounds (`self.data.len() != 0`)
             let slot = unsafe { self.data.get_unchecked(index) };
             if slot.status == hash_status {
@@ -493,7 +501,11 @@ impl<T, S: Status, A: Clone + Allocator> RawTable<T, S, A> {
         let mut first_tombstone = None;
         let hash_status = S::from_hash(hash);
 
+        #[cfg(oxidd_verif)]
+        let mut verif_steps = 0usize;
         loop {
+            #[cfg(oxidd_verif)]
+            verif_probe_step(&mut verif_steps, self.data.len(), "find_or_find_insert_slot");
             // SAFETY: masked index is in bounds (`self.data.len() != 0`)
             let slot = unsafe { self.data.get_unchecked(index) };
             if slot.status == hash_status {
@@ -991,6 +1003,165 @@ impl<T, S: Status> Drop for Drain<'_, T, S> {
                 unsafe { slot.data.assume_init_drop() };
             }
         }
+    }
+}
+
+// === Verification hooks (`--cfg oxidd_verif`) ================================
+
+/// Count one probe step; panic once a probing loop has visited more slots than
+/// the table has (i.e., the loop would never terminate)
+///
+/// Every probing loop visits the slots `i, i + 1, ...` (mod `slots`). After
+/// `slots` steps every slot has been inspected once without hitting the loop's
+/// exit condition, and nothing changes between the steps, so step `slots + 1`
+/// proves divergence.
+#[cfg(oxidd_verif)]
+#[inline(always)]
+fn verif_probe_step(steps: &mut usize, slots: usize, site: &'static str) {
+    *steps += 1;
+    if *steps > slots {
+        verif_probe_cycle(slots, site);
+    }
+}
+
+#[cfg(oxidd_verif)]
+#[cold]
+#[inline(never)]
+fn verif_probe_cycle(slots: usize, site: &'static str) -> ! {
+    panic!("verif: probe cycle in {site} (more than {slots} probe steps in a table with {slots} slots)");
+}
+
+/// Slot statistics returned by [`RawTable::verif_stats()`]
+#[cfg(oxidd_verif)]
+#[derive(Clone, Copy, PartialEq, Eq, Debug)]
+pub struct VerifStats {
+    /// Number of slots (same as [`RawTable::slots()`])
+    pub slots: usize,
+    /// Value of the `len` field
+    pub len: usize,
+    /// Value of the `free` field
+    pub free: usize,
+    /// Number of slots whose status is a hash value
+    pub occupied_slots: usize,
+    /// Number of slots whose status is `FREE`
+    pub free_slots: usize,
+    /// Number of slots whose status is `TOMBSTONE`
+    pub tombstone_slots: usize,
+}
+
+#[cfg(oxidd_verif)]
+impl<T, S: Status, A: Clone + Allocator> RawTable<T, S, A> {
+    /// Walk all slots and count them by status (read-only)
+    pub fn verif_stats(&self) -> VerifStats {
+        let mut stats = VerifStats {
+            slots: self.data.len(),
+            len: self.len,
+            free: self.free,
+            occupied_slots: 0,
+            free_slots: 0,
+            tombstone_slots: 0,
+        };
+        for slot in self.data.iter() {
+            if slot.status.is_hash() {
+                stats.occupied_slots += 1;
+            } else if slot.status == S::FREE {
+                stats.free_slots += 1;
+            } else if slot.status == S::TOMBSTONE {
+                stats.tombstone_slots += 1;
+            }
+        }
+        stats
+    }
+
+    /// Check the internal accounting the probing loops rely on (read-only)
+    ///
+    /// Returns `Err("<clause>: <details>")` for the first violated clause:
+    ///
+    /// - `capacity`: the number of slots is 0 or a power of two `>= MIN_CAP`
+    /// - `status`: every slot is `FREE`, a `TOMBSTONE`, or a hash value
+    /// - `len`: the `len` field equals the number of occupied slots (all
+    ///   iterators rely on this to stay in bounds)
+    /// - `free-overcount`: the `free` field does not exceed the number of
+    ///   `FREE` slots (`reserve()` decides on this field whether a rehash is
+    ///   needed, so an over-count lets the table run out of `FREE` slots)
+    /// - `no-free-slot`: there is at least one `FREE` slot if there are slots
+    ///   at all (otherwise unsuccessful lookups never terminate)
+    /// - `spare`: the `free` field is at least a quarter of the number of slots
+    ///   (established by `reserve()`/`reserve_rehash()` before each insertion,
+    ///   an insertion consumes at most one)
+    /// - `chain`: no `FREE` slot between an element's home slot
+    ///   (`hash & mask`) and the slot it is stored in (otherwise a lookup stops
+    ///   early and misses the element)
+    pub fn verif_audit(&self) -> Result<(), alloc::string::String> {
+        use alloc::format;
+
+        let slots = self.data.len();
+        if slots != 0 && (!slots.is_power_of_two() || slots < MIN_CAP) {
+            return Err(format!(
+                "capacity: {slots} slots is neither 0 nor a power of two >= {MIN_CAP}"
+            ));
+        }
+        for (i, slot) in self.data.iter().enumerate() {
+            let st = slot.status;
+            if !st.is_hash() && st != S::FREE && st != S::TOMBSTONE {
+                return Err(format!("status: slot {i} is neither FREE, TOMBSTONE, nor a hash"));
+            }
+        }
+        let stats = self.verif_stats();
+        if stats.len != stats.occupied_slots {
+            return Err(format!(
+                "len: len field is {} but {} of {slots} slots are occupied",
+                stats.len, stats.occupied_slots
+            ));
+        }
+        if stats.free > stats.free_slots {
+            return Err(format!(
+                "free-overcount: free field is {} but only {} of {slots} slots are FREE ({} tombstones, {} occupied)",
+                stats.free, stats.free_slots, stats.tombstone_slots, stats.occupied_slots
+            ));
+        }
+        if slots != 0 && stats.free_slots == 0 {
+            return Err(format!(
+                "no-free-slot: none of the {slots} slots is FREE ({} tombstones, {} occupied)",
+                stats.tombstone_slots, stats.occupied_slots
+            ));
+        }
+        if stats.free < slots / RATIO_D * (RATIO_D - RATIO_N) {
+            return Err(format!(
+                "spare: free field is {} but {slots} slots require at least {} spare slots",
+                stats.free,
+                slots / RATIO_D * (RATIO_D - RATIO_N)
+            ));
+        }
+        if slots != 0 {
+            // Single pass starting behind some FREE slot: `run` is the number
+            // of non-FREE slots between the last FREE slot and slot `i`.
+            let mask = slots - 1;
+            let mut start = 0;
+            while self.data[start].status != S::FREE {
+                start += 1; // terminates, there is a FREE slot (see above)
+            }
+            let mut run = 0;
+            for k in 1..slots {
+                let i = (start + k) & mask;
+                let status = self.data[i].status;
+                if status == S::FREE {
+                    run = 0;
+                    continue;
+                }
+                if status.is_hash() {
+                    let home = status.hash_as_usize() & mask;
+                    let dist = i.wrapping_sub(home) & mask;
+                    if dist > run {
+                        return Err(format!(
+                            "chain: element in slot {i} has home slot {home} but there is a FREE slot in between"
+                        ));
+                    }
+                }
+                run += 1;
+            }
+        }
+        Ok(())
     }
 }
 
